@@ -248,7 +248,9 @@ def evaluate(ctx, cases, tag):
             r['diffs'].append('driver: ' + io[:300])
             per.append(r)
             continue
-        if g.get('done') != '1':
+        if g.get('est') == '0':
+            r['diffs'].append('the real client could not establish a session with the real server (first packet not accepted or handshake not finished)')
+        elif g.get('done') != '1':
             r['diffs'].append('traffic pattern %s did not complete on the real code (the model says every frame it needs is admissible)' % meta['pattern'])
         name = None if meta['name'].lower() == 'random' else meta['name'].encode()
         for i in range(int(g['nconn'])):
